@@ -40,7 +40,7 @@ def minify_and_project(ctx, exe, cases, tag, procs=None):
     """cases: list of dict(id=, src=).  Returns the projected lines (dicts), same order."""
     cin = ctx.path('run', tag + '-cases.ndjson')
     dout = ctx.path('run', tag + '-min.ndjson')
-    vlib.write_ndjson(cin, [dict(id=c['id'], src=c['src']) for c in cases])
+    vlib.write_ndjson(cin, [dict(id=c['id'], src=c['src'], ver=c.get('ver', 0)) for c in cases])
     vlib.run([exe, cin, dout], timeout=1800)
     lines = [l for l in open(dout) if l.strip()]
     if len(lines) != len(cases):
@@ -141,15 +141,19 @@ def build_cases(ctx, trees):
     cases = []
     seen = set()
 
-    def add(src, origin, generated=True):
-        if src in seen:
+    def add(src, origin, generated=True, ver=None):
+        # js.Minifier.Version: what reaches the renamer depends on it (an unused catch parameter is dropped from
+        # ES2019 on), so generated programs are spread over the targets; repository inputs run with the default
+        if ver is None:
+            ver = rnd.choice([0, 0, 0, 5, 2015, 2018, 2019, 2020]) if generated else 0
+        if (src, ver) in seen:
             return
-        seen.add(src)
-        cases.append(dict(id=len(cases), src=src, origin=origin, generated=generated))
+        seen.add((src, ver))
+        cases.append(dict(id=len(cases), src=src, ver=ver, origin=origin, generated=generated))
 
     # (0) witnesses of fixed findings
     for src in REGRESSION:
-        add(src, 'regression')
+        add(src, 'regression', ver=0)
     # (1) model trees
     ctx.coverage['mc_trees'] = len(trees)
     pick = vlib.sample(trees, 1500 if quick else 60000, rnd)
@@ -180,6 +184,16 @@ def build_cases(ctx, trees):
         for _ in range(3):
             add(G.with_nested_then_scope(rnd), 'pressure/withnested')
         add(G.module_program(rnd), 'pressure/module')
+    # the whole product of flow contexts x block shapes, once with uniformly drawn short names and once with the
+    # moved bindings spelled like the very first generated names
+    for rep_ in range(1 if quick else 8):
+        for k in range(G.N_FLATTEN):
+            add(G.flatten_blocks(rnd, k, first=False), 'pressure/flatten')
+            add(G.flatten_blocks(rnd, k, first=True), 'pressure/flatten')
+    for _ in range(12 if quick else 120):
+        src = G.catch_unused(rnd)
+        for v in G.VERSIONS:
+            add(src, 'pressure/catchunused', ver=v)
     for k in range(len(G.NESTED_FN) * len(G.LATER_SCOPE)):
         add(G.with_nested_then_scope(rnd, k), 'pressure/withnested')
     # (3) random nestings
@@ -243,6 +257,11 @@ def repo_skip(c, e):
     return None
 
 
+def ident(c):
+    # identity of a witness: the program, plus the target version when it is not the default
+    return dict(src=c['src']) if not c.get('ver') else dict(src=c['src'], ver=c['ver'])
+
+
 def describe(c, e, why):
     src = c['src'] if len(c['src']) < 300 else c['src'][:300] + '...(%d bytes)' % len(c['src'])
     kt, rt = e.get('_keep_text', ''), e.get('_ren_text', '')
@@ -250,7 +269,7 @@ def describe(c, e, why):
         kt = kt[:300] + '...'
     if len(rt) > 300:
         rt = rt[:300] + '...'
-    return '%s: %s  => keep: %s  => shortened: %s' % ('/'.join(sorted(set(why))), src, kt, rt)
+    return '%s: %s%s  => keep: %s  => shortened: %s' % ('/'.join(sorted(set(why))), '[Version %d] ' % c['ver'] if c.get('ver') else '', src, kt, rt)
 
 
 def run(ctx):
@@ -262,7 +281,7 @@ def run(ctx):
     cases = build_cases(ctx, trees)
     pinned = vlib.known_cases('C02')
     for p in pinned:
-        cases.append(dict(id=len(cases), src=p['src'], origin='pinned', generated=False))
+        cases.append(dict(id=len(cases), src=p['src'], ver=p.get('ver', 0), origin='pinned', generated=False))
     proj = minify_and_project(ctx, exe, cases, 'main')
     vlib.log('C02: %d cases minified and projected at %.0fs' % (len(cases), time.time() - t0))
 
@@ -312,7 +331,7 @@ def run(ctx):
         bad = bad[:60]
     re_lines = []
     for i in bad:
-        p1 = minify_and_project(ctx, exe, [dict(id=0, src=cases[i]['src'])], 'rerun%d' % i, procs=1)
+        p1 = minify_and_project(ctx, exe, [dict(id=0, src=cases[i]['src'], ver=cases[i].get('ver', 0))], 'rerun%d' % i, procs=1)
         if p1[0]['st'] not in JUDGED:
             raise vlib.Infra('rejected case is not judgeable in isolation: %s' % cases[i]['src'][:300])
         re_lines.append(p1[0])
@@ -322,7 +341,7 @@ def run(ctx):
             c = cases[i]
             if k in w1:
                 reproduced += 1
-                ctx.report(dict(src=c['src']), describe(c, re_lines[k], w1[k]),
+                ctx.report(ident(c), describe(c, re_lines[k], w1[k]),
                            replay_obj=dict(keep=re_lines[k]['_keep_text'][:4000], shortened=re_lines[k]['_ren_text'][:4000],
                                            clauses=w1[k]))
             else:
@@ -384,7 +403,7 @@ def run(ctx):
 def replay(ctx, obj):
     exe = vlib.build_harness(ctx, 'c02')
     src = obj['case']['src']
-    p1 = minify_and_project(ctx, exe, [dict(id=0, src=src)], 'replay', procs=1)
+    p1 = minify_and_project(ctx, exe, [dict(id=0, src=src, ver=obj['case'].get('ver', 0))], 'replay', procs=1)
     e = p1[0]
     print('input     :', src[:2000])
     print('keep      :', e['_keep_text'][:2000])
